@@ -1,1 +1,91 @@
-From TL Require Import Base.Base.
+(* C06 - Macro expansion is faithful, complete and stable.                   *)
+(* Statements only; the proofs are in Proofs/Macros.v.                        *)
+From TL Require Import Base.Base Model.Reader Model.Printer Model.Store Model.Eval Model.Init.
+From TL Require Import Proofs.Macros.
+Local Open Scope list_scope.
+
+(* evaluating a macro call IS evaluating its expansion: the call arm of the  *)
+(* interpreter expands the form (the macro applied to the UNEVALUATED          *)
+(* argument forms) and evaluates the result                                    *)
+Theorem C06_macro_call_is_expansion : forall F f m args s,
+  run F (S f) (TCall true (PMac m) args) s =
+  bind (run F f (TExpand (Cons (PMac m) args))) (fun x => run F f (TEval x)) s.
+Proof. reflexivity. Qed.
+Theorem C06_user_macro_call_is_expansion : forall F f ps body args s,
+  run F (S f) (TCall true (Mac ps body) args) s =
+  bind (run F f (TExpand (Cons (Mac ps body) args))) (fun x => run F f (TEval x)) s.
+Proof. reflexivity. Qed.
+
+(* stability: a form in which no list (at any element position, to any depth, *)
+(* dotted tails included) has a macro-bound head expands to itself; so          *)
+(* expanding an expanded form returns an equal form                             *)
+Theorem C06_expanded_is_fixpoint : forall F n x s f, expandedb n s x = true -> (n <= f)%nat ->
+  run F f (TExpand x) s = (Ok x, s).
+Proof. exact expanded_is_fixpoint. Qed.
+Theorem C06_quoted_untouched : forall F f v s, run F (S f) (TExpand (Quote v)) s = (Ok (Quote v), s).
+Proof. exact quoted_untouched. Qed.
+Theorem C06_atoms_untouched : forall F f x s, consp x = false -> run F (S f) (TExpand x) s = (Ok x, s).
+Proof. exact atoms_untouched. Qed.
+
+(* the built-in macros are their Emacs definitions *)
+Theorem C06_when : forall rec c body s,
+  apply_pmac rec MWhen (Cons c body) s = (Ok (of_list [S_ "if"; c; Cons (S_ "progn") body] Nil), s).
+Proof. exact when_expansion. Qed.
+Theorem C06_unless : forall rec c body s,
+  apply_pmac rec MUnless (Cons c body) s = (Ok (Cons (S_ "if") (Cons c (Cons Nil body))), s).
+Proof. exact unless_expansion. Qed.
+Theorem C06_when_let : forall rec spec body s,
+  apply_pmac rec MWhenLet (Cons spec body) s =
+  match progn_on_rest body with
+  | Ok pr => (Ok (of_list [S_ "if-let"; spec; pr] Nil), s)
+  | Err e => (Err e, s) | Panic n => (Panic n, s) | Fuel => (Fuel, s)
+  end.
+Proof. exact when_let_expansion. Qed.
+Theorem C06_while_let : forall rec spec body s r,
+  append2 (Cons (S_ "progn") (nil_append body)) (Cons T Nil) = Ok r ->
+  apply_pmac rec MWhileLet (Cons spec body) s =
+  (Ok (of_list [S_ "while"; of_list [S_ "if-let"; spec; r; Nil] Nil] Nil), s).
+Proof. exact while_let_expansion. Qed.
+(* -> / thread-first is the left fold inserting the accumulated form as the  *)
+(* first argument, ->> / thread-last as the last argument                       *)
+Theorem C06_thread_first : forall forms fuel x,
+  (List.length forms < fuel)%nat -> Forall (fun f => null f = false) forms ->
+  thread true fuel x forms = Ok (fold_left ins_first forms x).
+Proof. exact thread_first_fold. Qed.
+Theorem C06_thread_last : forall forms fuel x,
+  (List.length forms < fuel)%nat -> Forall (fun f => null f = false) forms ->
+  Forall (fun f => consp f = true -> tail_of f = Nil) forms ->
+  thread false fuel x forms = Ok (fold_left ins_last forms x).
+Proof. exact thread_last_fold. Qed.
+
+Print Assumptions C06_macro_call_is_expansion. Print Assumptions C06_user_macro_call_is_expansion.
+Print Assumptions C06_expanded_is_fixpoint. Print Assumptions C06_quoted_untouched.
+Print Assumptions C06_atoms_untouched. Print Assumptions C06_when. Print Assumptions C06_unless.
+Print Assumptions C06_when_let. Print Assumptions C06_while_let.
+Print Assumptions C06_thread_first. Print Assumptions C06_thread_last.
+
+(* non-vacuity: expansion reaches nested calls and dotted tails, leaves     *)
+(* quoted data alone, is idempotent; if-let* binds and stops at the first nil *)
+Definition F0 : fops :=
+  {| f_add := fun _ _ => 0%Z; f_sub := fun _ _ => 0%Z; f_mul := fun _ _ => 0%Z;
+     f_div := fun _ _ => 0%Z; f_rem := fun _ _ => 0%Z; f_pow := fun _ _ => 0%Z;
+     f_max := fun _ _ => 0%Z; f_min := fun _ _ => 0%Z; f_of_int := fun z => z;
+     f_to_int := fun z => z; f_round := fun z => z; f_trunc := fun z => z;
+     f_lt := Z.ltb; f_le := Z.leb; f_eq := Z.eqb; f_is_finite := fun _ => true;
+     f_to_dec := fun _ => []; f_of_dec := fun _ => None |}.
+Definition ev0 (p : string) := fst (eval_string F0 90 (s2t p) (init_state [] None)).
+Example C06_ex1 :
+  ev0 "(defmacro inc (v &optional n) `(setq ,v (+ ,v ,(if n n 1)))) (macroexpand '(progn (when a (inc x) '(when b)) (f . ((unless c (inc y 2))))))"
+  = ev0 "'(progn (if a (progn (setq x (+ x 1)) '(when b))) (f (if c nil (setq y (+ y 2)))))".
+Proof. vm_compute. reflexivity. Qed.
+Example C06_ex2 :
+  ev0 "(defmacro inc (v) `(setq ,v (+ ,v 1))) (setq e (macroexpand '(-> 5 (+ 1) (when (inc x))))) (equal e (macroexpand e))"
+  = Ok T.
+Proof. vm_compute. reflexivity. Qed.
+Example C06_ex3 :
+  ev0 "(list (if-let* ((a 1) (b (+ a 1))) (list a b) 'no) (if-let* ((a 1) (b nil) (c (car 5))) 'yes 'no) (->> '(1 2 3) (mapcar '1+) (nth 1)))"
+  = ev0 "'((1 2) no 3)".
+Proof. vm_compute. reflexivity. Qed.
+
+Check C06_expanded_is_fixpoint : forall F n x s f, expandedb n s x = true -> (n <= f)%nat ->
+  run F f (TExpand x) s = (Ok x, s).
